@@ -100,6 +100,10 @@ class GraphicalModel:
         updating_node : str
 
         """
+        if nx.has_path(self.source_net, node, updating_node):
+            raise ValueError("Node '{}' depends on node '{}', updating would create a "
+                             "cycle.".format(updating_node, node))
+
         out_edges = list(self.source_net.edges(node, data=True))
         self.remove_node(node)
         self.source_net.add_node(node, attr_dict=self.source_net.nodes[updating_node]['attr_dict'])
